@@ -42,6 +42,30 @@ pub mod extra {
         match kernel {
             "lemire_lossy_rel_f64" => format!("{}", super::lemire_lossy_rel_f64(a[0].parse().unwrap(), a[1].parse().unwrap()) as u8),
             "lemire_lossy_rel_f32" => format!("{}", super::lemire_lossy_rel_f32(a[0].parse().unwrap(), a[1].parse().unwrap()) as u8),
+            "to_decimal_f32" => {
+                let r = super::to_decimal_f32(a[0].parse().unwrap());
+                format!("{} {}", r.mant, r.exp)
+            },
+            "to_decimal_f64" => {
+                let r = super::to_decimal_f64(a[0].parse().unwrap());
+                format!("{} {}", r.mant, r.exp)
+            },
+            "dbx_normal_f32" => {
+                let r = super::dbx_normal_f32(a[0].parse().unwrap());
+                format!("{} {}", r.mant, r.exp)
+            },
+            "dbx_normal_f64" => {
+                let r = super::dbx_normal_f64(a[0].parse().unwrap());
+                format!("{} {}", r.mant, r.exp)
+            },
+            "dbx_shorter_f32" => {
+                let r = super::dbx_shorter_f32(a[0].parse().unwrap());
+                format!("{} {}", r.mant, r.exp)
+            },
+            "dbx_shorter_f64" => {
+                let r = super::dbx_shorter_f64(a[0].parse().unwrap());
+                format!("{} {}", r.mant, r.exp)
+            },
             _ => format!("UNKNOWN-KERNEL {}", kernel),
         }
     }
@@ -59,4 +83,123 @@ pub fn lemire_lossy_rel_f32(q: i64, w: u64) -> bool {
     let a = lexical_parse_float::lemire::compute_float::<f32>(q, w, true);
     let b = lexical_parse_float::lemire::compute_float::<f32>(q, w, false);
     b.exp < 0 || (a.mant == b.mant && a.exp == b.exp)
+}
+
+/// Dragonbox front end (C02): float bits -> shortest decimal (mant, exp).
+#[inline(never)]
+pub fn to_decimal_f32(bits: u32) -> lexical_write_float::float::ExtendedFloat80 {
+    lexical_write_float::algorithm::to_decimal(f32::from_bits(bits))
+}
+#[inline(never)]
+pub fn to_decimal_f64(bits: u64) -> lexical_write_float::float::ExtendedFloat80 {
+    lexical_write_float::algorithm::to_decimal(f64::from_bits(bits))
+}
+#[inline(never)]
+pub fn dbx_normal_f32(bits: u32) -> lexical_write_float::float::ExtendedFloat80 {
+    lexical_write_float::algorithm::compute_nearest_normal(f32::from_bits(bits))
+}
+#[inline(never)]
+pub fn dbx_normal_f64(bits: u64) -> lexical_write_float::float::ExtendedFloat80 {
+    lexical_write_float::algorithm::compute_nearest_normal(f64::from_bits(bits))
+}
+#[inline(never)]
+pub fn dbx_shorter_f32(bits: u32) -> lexical_write_float::float::ExtendedFloat80 {
+    lexical_write_float::algorithm::compute_nearest_shorter(f32::from_bits(bits))
+}
+#[inline(never)]
+pub fn dbx_shorter_f64(bits: u64) -> lexical_write_float::float::ExtendedFloat80 {
+    lexical_write_float::algorithm::compute_nearest_shorter(f64::from_bits(bits))
+}
+
+/// Monomorphic instances of trait methods that the MIR inliner leaves as calls
+/// (`<f64 as DragonboxFloat>::compute_mul` ...). Engine S resolves such a call to the
+/// wrapper `tm__<type>__<Trait>__<method>`, whose MIR has the real body inlined.
+#[allow(non_snake_case)]
+pub mod tm {
+    use lexical_util::num::Float;
+    use lexical_write_float::algorithm::DragonboxFloat;
+    macro_rules! inst {
+        ($f:ty, $power:ty, $n1:ident, $n2:ident, $n3:ident, $n4:ident, $n5:ident, $n6:ident, $n7:ident, $n8:ident, $n9:ident, $n10:ident, $n11:ident, $n12:ident, $n13:ident) => {
+            #[inline(never)]
+            pub fn $n1(e: i32) -> $power {
+                unsafe { <$f as DragonboxFloat>::dragonbox_power(e) }
+            }
+            #[inline(never)]
+            pub fn $n2(p: &$power, b: i32) -> u64 {
+                <$f as DragonboxFloat>::compute_left_endpoint(p, b)
+            }
+            #[inline(never)]
+            pub fn $n3(p: &$power, b: i32) -> u64 {
+                <$f as DragonboxFloat>::compute_right_endpoint(p, b)
+            }
+            #[inline(never)]
+            pub fn $n4(p: &$power, b: i32) -> u64 {
+                <$f as DragonboxFloat>::compute_round_up(p, b)
+            }
+            #[inline(never)]
+            pub fn $n5(u: u64, p: &$power) -> (u64, bool) {
+                <$f as DragonboxFloat>::compute_mul(u, p)
+            }
+            #[inline(never)]
+            pub fn $n6(t: u64, p: &$power, b: i32) -> (bool, bool) {
+                <$f as DragonboxFloat>::compute_mul_parity(t, p, b)
+            }
+            #[inline(never)]
+            pub fn $n7(p: &$power, b: i32) -> u32 {
+                <$f as DragonboxFloat>::compute_delta(p, b)
+            }
+            #[inline(never)]
+            pub fn $n8(m: u64, e: i32) -> (u64, i32) {
+                <$f as DragonboxFloat>::process_trailing_zeros(m, e)
+            }
+            #[inline(never)]
+            pub fn $n9(n: u32) -> (u32, bool) {
+                <$f as DragonboxFloat>::check_div_pow10(n)
+            }
+            #[inline(never)]
+            pub fn $n10(n: u64, e: u32, m: u64) -> u64 {
+                <$f as DragonboxFloat>::divide_by_pow10(n, e, m)
+            }
+            #[inline(never)]
+            pub fn $n11(x: $f) -> i32 {
+                <$f as Float>::exponent(x)
+            }
+            #[inline(never)]
+            pub fn $n12(m: u64) -> usize {
+                <$f as DragonboxFloat>::digit_count(m)
+            }
+            #[inline(never)]
+            pub fn $n13(m: u64) -> (u64, i32) {
+                <$f as DragonboxFloat>::remove_trailing_zeros(m)
+            }
+        };
+    }
+    inst!(f32, u64, tm__f32__DragonboxFloat__dragonbox_power, tm__f32__DragonboxFloat__compute_left_endpoint, tm__f32__DragonboxFloat__compute_right_endpoint,
+        tm__f32__DragonboxFloat__compute_round_up, tm__f32__DragonboxFloat__compute_mul, tm__f32__DragonboxFloat__compute_mul_parity, tm__f32__DragonboxFloat__compute_delta,
+        tm__f32__DragonboxFloat__process_trailing_zeros, tm__f32__DragonboxFloat__check_div_pow10, tm__f32__DragonboxFloat__divide_by_pow10, tm__f32__Float__exponent,
+        tm__f32__DragonboxFloat__digit_count, tm__f32__DragonboxFloat__remove_trailing_zeros);
+    inst!(f64, (u64, u64), tm__f64__DragonboxFloat__dragonbox_power, tm__f64__DragonboxFloat__compute_left_endpoint, tm__f64__DragonboxFloat__compute_right_endpoint,
+        tm__f64__DragonboxFloat__compute_round_up, tm__f64__DragonboxFloat__compute_mul, tm__f64__DragonboxFloat__compute_mul_parity, tm__f64__DragonboxFloat__compute_delta,
+        tm__f64__DragonboxFloat__process_trailing_zeros, tm__f64__DragonboxFloat__check_div_pow10, tm__f64__DragonboxFloat__divide_by_pow10, tm__f64__Float__exponent,
+        tm__f64__DragonboxFloat__digit_count, tm__f64__DragonboxFloat__remove_trailing_zeros);
+}
+
+/// Monomorphic instances of generic free functions left as calls by the MIR inliner.
+pub mod mono {
+    #[inline(never)]
+    pub fn is_left_endpoint__f32(e: i32) -> bool {
+        lexical_write_float::algorithm::is_left_endpoint::<f32>(e)
+    }
+    #[inline(never)]
+    pub fn is_left_endpoint__f64(e: i32) -> bool {
+        lexical_write_float::algorithm::is_left_endpoint::<f64>(e)
+    }
+    #[inline(never)]
+    pub fn is_right_endpoint__f32(e: i32) -> bool {
+        lexical_write_float::algorithm::is_right_endpoint::<f32>(e)
+    }
+    #[inline(never)]
+    pub fn is_right_endpoint__f64(e: i32) -> bool {
+        lexical_write_float::algorithm::is_right_endpoint::<f64>(e)
+    }
 }
